@@ -368,10 +368,11 @@ func c30ParseCfg(toks []string) c30Cfg {
 			*v = hi
 		}
 	}
-	clamp(&c.capIn, 1, 8)
-	clamp(&c.capRe, 1, 8)
-	clamp(&c.wIn, 1, 4)
-	clamp(&c.wRe, 1, 4)
+	// 0 = the field is left unset, as in a configuration file: the real applyDefaults fills it in
+	clamp(&c.capIn, 0, 8)
+	clamp(&c.capRe, 0, 8)
+	clamp(&c.wIn, 0, 4)
+	clamp(&c.wRe, 0, 4)
 	clamp(&c.ri, 0, 8)
 	return c
 }
@@ -393,6 +394,7 @@ type c30Sess struct {
 	cfg  c30Cfg
 	mode string // up | closing (Close called, waits for running executions) | closed | down
 	closeDone chan struct{} // closed when the pending Close() returned
+	eff       persistedretry.Config // the configuration the real manager runs with (after applyDefaults)
 	db   *sqlx.DB
 	m    persistedretry.Manager
 	st   *c30Store
@@ -494,13 +496,15 @@ func (s *c30Sess) startIncarnation(invalid []string) error {
 		MaxTaskThroughput:   time.Nanosecond,
 		RetryInterval:       time.Duration(s.cfg.ri)*c30Unit + c30Unit/2,
 		PollRetriesInterval: 24 * time.Hour,
-		Testing:             true,
+		// Testing only says "a channel size of 0 is meant"; with a size left unset the defaults apply
+		Testing: s.cfg.capIn != 0 && s.cfg.capRe != 0,
 	}, tally.NoopScope, s.st, s.ex)
 	if err != nil {
 		db.Close()
 		return err
 	}
 	s.db, s.m, s.mode = db, m, "up"
+	s.eff = persistedretry.VerifConfig(m)
 	s.pool = map[string]string{}
 	s.queued = map[string]int{"in": 0, "re": 0}
 	s.running = map[string]map[string]bool{"in": {}, "re": {}}
@@ -576,9 +580,9 @@ func c30Has(evs []c30Ev, meth, key string) bool {
 
 func (s *c30Sess) workers(p string) int {
 	if p == "in" {
-		return s.cfg.wIn
+		return s.eff.NumIncomingWorkers
 	}
-	return s.cfg.wRe
+	return s.eff.NumRetryWorkers
 }
 
 func (s *c30Sess) noteQueued(k, p string) {
@@ -1055,6 +1059,8 @@ func c30Run(env *c30Env, tr *verifh.T, c verifh.Case) {
 		tr.End()
 		return
 	}
+	tr.Op([]string{"defaults"}, fmt.Sprintf("win=%d", s.eff.NumIncomingWorkers), fmt.Sprintf("wre=%d", s.eff.NumRetryWorkers),
+		fmt.Sprintf("capin=%d", s.eff.IncomingBuffer), fmt.Sprintf("capre=%d", s.eff.RetryBuffer))
 	for _, op := range c.Ops {
 		s.step(op)
 	}
@@ -1087,6 +1093,13 @@ func c30Alphabet(nk int, full bool) [][]string {
 
 func c30RandCase(r *verifh.Rand, tr *verifh.T) verifh.Case {
 	cfg := c30Cfg{store: r.Pick("wb", "wb", "tr"), capIn: 1 + r.Intn(2), capRe: 1 + r.Intn(2), wIn: 1 + r.Intn(2), wRe: 1 + r.Intn(2), ri: r.Intn(3)}
+	if r.Chance(1, 4) {
+		// a configuration as written by a user: incoming workers 1..4, retry workers unset or 1..3,
+		// channel sizes unset or small
+		cfg.wIn, cfg.wRe = 1+r.Intn(4), r.Intn(4)
+		cfg.capIn, cfg.capRe = r.Intn(3), r.Intn(3)
+		tr.Count("random_user_config", 1)
+	}
 	nk := 2 + r.Intn(3)
 	n := 4 + r.Intn(28)
 	var ops [][]string
@@ -1271,6 +1284,25 @@ func TestVerif_C30(t *testing.T) {
 			tr.Count("send_overflow_cases", 1)
 		}
 	}
+	// (a4) configurations as a user writes them: worker counts and channel sizes set or left unset (0; the
+	// real applyDefaults fills them in), followed by what routes a task through the retry path: an executor
+	// failure, an incoming-channel overflow, a delayed task, a restart with pending tasks
+	for _, wIn := range []int{0, 1, 2, 3, 4} {
+		for _, wRe := range []int{0, 1, 2, 3} {
+			for _, caps := range [][2]int{{0, 0}, {1, 1}, {2, 0}} {
+				cfg := c30Cfg{store: []string{"wb", "tr"}[(wIn+wRe)%2], capIn: caps[0], capRe: caps[1], wIn: wIn, wRe: wRe, ri: 1}
+				for _, ops := range [][][]string{
+					{{"op", "add", "k0", "0"}, {"op", "fin", "k0", "fail"}, {"op", "adv", "2"}, {"op", "poll"}},
+					{{"op", "add", "k0", "0"}, {"op", "add", "k1", "0"}, {"op", "add", "k2", "0"}, {"op", "add", "k3", "0"}, {"op", "fin", "k0", "fail"}},
+					{{"op", "add", "k0", "2"}, {"op", "add", "k1", "0"}},
+					{{"op", "add", "k0", "0"}, {"op", "add", "k1", "0"}, {"op", "crash"}, {"op", "start", "inv=-"}},
+				} {
+					c30Run(env, tr, verifh.Case{Cfg: cfg.toks(), Ops: ops})
+					tr.Count("config_space_cases", 1)
+				}
+			}
+		}
+	}
 	// (b) random histories
 	r := verifh.NewRand(verifh.Seed(), "c30")
 	for i := 0; i < verifh.Scale(200, 12000); i++ {
@@ -1371,7 +1403,7 @@ func c30FreeRun(env *c30Env, tr *verifh.T, c verifh.Case) {
 		m, err = persistedretry.NewManager(persistedretry.Config{
 			IncomingBuffer: cfg.capIn, RetryBuffer: cfg.capRe, NumIncomingWorkers: cfg.wIn, NumRetryWorkers: cfg.wRe,
 			MaxTaskThroughput: time.Nanosecond, RetryInterval: time.Nanosecond, PollRetriesInterval: 2 * time.Millisecond,
-			Testing: true,
+			Testing: cfg.capIn != 0 && cfg.capRe != 0,
 		}, tally.NoopScope, c30FreeStore{inner, l}, c30FreeExec{l})
 		if err != nil {
 			tr.PropFail("start-failed", verifh.Str(err.Error()))
